@@ -30,6 +30,9 @@ def packEntry (fmt : PackFmt) (filt : PackFilter) (e : FsEntry) (b : Bucket) : O
       | none => .panic "invalid fs.Type"
       | some _ => .ok (b.add m (if m.kind = .file then e.chash else []))
     | .zip =>
+      -- files, directories and symlinks only: the rest (fifo, socket, devices) is refused — before the `fix:` it was hashed
+      -- as what it is and stored as a regular file (or as something `unpackZip` refuses), a ware nobody could unpack
+      if m.kind ≠ .file ∧ m.kind ≠ .dir ∧ m.kind ≠ .symlink then .err .packInvalid else
       -- the zip format keeps the mtime as an unsigned 32-bit count of seconds: anything else is refused (`fix:` eac95f2;
       -- before, it was hashed as it is and stored wrapped)
       if m.mtime.sec < 0 ∨ m.mtime.sec > 4294967295 then .err .packInvalid else
